@@ -265,7 +265,15 @@ def r_ctx(c):
             if isinstance(call, ast.Call) and ast.unparse(call.func) == "self.rec" \
                     and len(call.args) == 2:
                 a1 = ast.unparse(call.args[1])
-                c.check(a1 in ("None", ctxp), "R06-CTX",
+                # a context built on the spot (directly or held in a local) is the
+                # third admissible argument: that is how a distribution starts
+                built = {t.id for a in ast.walk(fd) if isinstance(a, ast.Assign)
+                         and isinstance(a.value, ast.Call) and ast.unparse(a.value.func).endswith(
+                             "_EinsumDistributiveLawMapperContext")
+                         for t in a.targets if isinstance(t, ast.Name)}
+                fresh = a1 in built or (isinstance(call.args[1], ast.Call) and ast.unparse(
+                    call.args[1].func).endswith("_EinsumDistributiveLawMapperContext"))
+                c.check(a1 in ("None", ctxp) or fresh, "R06-CTX",
                         f"EinsumDistributiveLawMapper.{mn}", f"rec-ctx-arg:{m.frag(call, 40)}",
                         m.loc(ci.module, call),
                         f"recursion passes `{a1}` as context (neither the incoming "
@@ -330,7 +338,8 @@ def r_wrap(c):
             "R06-WRAP", "_wrap_einsum_from_ctx", "no-context-is-identity", where,
             "without a context the expression is no longer returned unchanged")
     # map_einsum builds the context from the einsum's own fields, dropping ioperand
-    me = m.func(MAPPER + ".map_einsum")
+    me_raw = m.func(MAPPER + ".map_einsum")
+    me = m.normal(me_raw)     # ioperand / surrounding_args / the context held in locals
     ctxs = [x for x in ast.walk(me) if isinstance(x, ast.Call)
             and ast.unparse(x.func).endswith("_EinsumDistributiveLawMapperContext")]
     if len(ctxs) != 1:
@@ -342,8 +351,10 @@ def r_wrap(c):
         ck[cinit[i]] = a
     wh = m.loc(m.module_of(me), cc)
     ep, cp = me.args.args[1].arg, me.args.args[2].arg
-    dl = find(me, f"$d = self.how_to_distribute({ep})")
+    dl = find(me_raw, f"$d = self.how_to_distribute({ep})")
     dv = dl[0]["$d"] if len(dl) == 1 else "?"
+    if not any(isinstance(x, ast.Name) and x.id == dv for x in ast.walk(me)):
+        dv = f"self.how_to_distribute({ep})"      # the local was propagated
     for f in ("access_descriptors", "redn_axis_to_redn_descr", "tags", "axes"):
         v = ast.unparse(ck[f]) if f in ck else ""
         c.check(v in (f"{ep}.{f}", f"constantdict({ep}.{f})"), "R06-WRAP",
@@ -355,8 +366,14 @@ def r_wrap(c):
             "ctx.surrounding_args", wh,
             "surrounding_args is not {position: operand} for all operands except "
             "ioperand")
-    c.check(has(me, f"{cp} = $$_\nreturn _verify_is_array(self.rec({ep}.args[{dv}.ioperand], {cp}))")
-            or has(me, f"{cp} = $$_\nreturn self.rec({ep}.args[{dv}.ioperand], {cp})"),
+    # the recursion into the operand distributed over gets the context just built
+    recs_ = [x for x in ast.walk(me) if isinstance(x, ast.Call)
+             and ast.unparse(x.func) == "self.rec" and len(x.args) == 2
+             and ast.unparse(x.args[0]) == f"{ep}.args[{dv}.ioperand]"]
+    holders = {t.id for a in ast.walk(me) if isinstance(a, ast.Assign) and a.value is cc
+               for t in a.targets if isinstance(t, ast.Name)}
+    c.check(len(recs_) == 1 and (recs_[0].args[1] is cc or (
+        isinstance(recs_[0].args[1], ast.Name) and recs_[0].args[1].id in holders)),
             "R06-WRAP", "EinsumDistributiveLawMapper.map_einsum", "recurses-into-ioperand",
             wh, "the operand distributed over is not expr.args[ioperand]")
     c.check(any(isinstance(i, ast.If) and ast.unparse(i.test) == f"{cp} is not None"
